@@ -22,3 +22,27 @@ globals()["nested_inner_catch_retry_task"]._vf.tiers = ("thorough",)   # 1665 sc
 
 import s2_found as found
 found.register(globals(), {"C02"}, ["caught_then_outer_fails", "three_levels", "backstop_after_end", "raw_start_events"], {"caught_then_outer_fails": [("_a", "a_fails"), ("_noa", "not a_fails")]})
+
+
+# Two engine instances sharing one broker: an execution with a fan-out state still ends exactly once (its Branch
+# events must come back to the instance that holds the join; whole-run harness of c19_affinity, C02's verdict)
+import c19_affinity as _aff
+from vf.api import condition as _condition
+
+
+def _two_instances(kind):
+    @_condition(timeout={"quick": 300, "thorough": 900}, functions=scn.ENGINE_FUNCS + ["EventDispatcher.publish (instance queue of the owning engine)"])
+    def cond(quorum: bool, c0: int, c1: int, c2: int, c3: int, c4: int, c5: int, c6: int, c7: int, c8: int, c9: int) -> str:
+        """
+        requires: True
+        ensures: _ == ""
+        """
+        r = _aff.affinity_run(2, quorum, kind, 1, [c0, c1, c2, c3, c4, c5, c6, c7, c8, c9, 0, 0, 0, 0, 0, 0])
+        # only C02's own verdict counts here (where an event was delivered is C19's business)
+        return r.replace("C19 terminals", "C02 with two engine instances the terminal notifications are") if r.startswith("C19 terminals") else ""
+    cond.__name__ = cond.__qualname__ = "two_instances_" + ("parallel" if kind == 0 else "sync_child")
+    globals()[cond.__name__] = cond
+
+
+_two_instances(0)
+_two_instances(1)
